@@ -16,6 +16,13 @@ def cases(tier):
             mem = {'m': m, 'cap': cap, 'seeded': seeded, 'name_idx': 0, 'promises': ['sym' if j == 0 else None for j in range(m)]}
             cfg = {'scenario': 'batch', 'n': n, 'x': x, 'members': [dict(mem, rng='sym'), dict(mem, rng='sym')], 'prove_only': True}
             out.append({'cfg': cfg, 'name': 'n%d m%d c%d x%d %s' % (n, m, cap, x, 'seeded' if seeded else 'unseeded'), 'seeded': seeded})
+    # "whatever random-number generator the prover is handed": also one that is stuck. Within a proof the nonces must still be pairwise different
+    # (the transcript RNG is re-keyed after every prover message and draws successive outputs in between)
+    for (n, m, cap, x) in cfgs[:3]:
+        for seeded in ((False, True) if m == 1 else (False,)):
+            mem = {'m': m, 'cap': cap, 'seeded': seeded, 'name_idx': 0}
+            cfg = {'scenario': 'batch', 'n': n, 'x': x, 'members': [dict(mem, rng='zero'), dict(mem, rng='const')], 'prove_only': True}
+            out.append({'cfg': cfg, 'name': 'n%d m%d c%d x%d %s, stuck external RNG' % (n, m, cap, x, 'seeded' if seeded else 'unseeded'), 'seeded': seeded, 'stuck': True})
     return out
 
 
@@ -118,7 +125,7 @@ def analyse(ctx, case, run, S):
         for cname, vn in names.items():
             inv.setdefault(vn, []).append(cname)
         dups = {k: v for k, v in inv.items() if len(v) > 1}
-        ctx.expect(not dups, 'C13:nonce-reused-within-proof', '%s run %d: one nonce hides several messages/components: %s' % (case['name'], ri, list(dups.values())[:3]), cfg, 'nonces_repeat', {'x': x})
+        ctx.expect(not dups, 'C13:nonce-reused-within-proof', '%s run %d: one nonce hides several messages/components: %s' % (case['name'], ri, list(dups.values())[:3]), cfg, 'nonces_aliased', {'x': x, 'alias': [sorted(v) for v in dups.values()]})
         per_run_vars.append(names)
         # every RNG-drawn nonce comes from a state that absorbed external randomness (a fresh symbol of the external stream) ...
         for cname, vn in names.items():
@@ -128,7 +135,7 @@ def analyse(ctx, case, run, S):
             b = run.core['blobs'][info['meta']['blob']]
             st = run.core['rng_states'][b['state']]
             has_ext = any('blob' in p and run.core['blobs'][p['blob']]['t'] == 'ext' for p in st['ext'])
-            ctx.expect(has_ext, 'C13:nonce-without-external-randomness', '%s run %d: %s is drawn from an RNG state that did not absorb the external RNG' % (case['name'], ri, cname), cfg,
+            ctx.expect(has_ext or case.get('stuck'), 'C13:nonce-without-external-randomness', '%s run %d: %s is drawn from an RNG state that did not absorb the external RNG' % (case['name'], ri, cname), cfg,
                        'nonce_hedge_broken', {'which': cname})
         # seed-derived ones: exactly the documented function of the seed
         if seeded:
